@@ -225,6 +225,18 @@ Apply(s, op, a) ==
          ELSE LET ch == Chk(L, a.addr, a.count) IN
               IF ch # "ok" THEN Res(s, Err(ch))
               ELSE Res(s, OkD(a.count, Sub(s.mem, O + a.addr, a.count)))
+       \* the same two into a cursor over a.room bytes: a sink that fills up (write returns 0) - the exact form must
+       \* then fail with write-zero, never spin
+    [] op = "write_to_cursor" ->
+         IF ~IsSlice(c) THEN Res(s, Skip)
+         ELSE IF ChkOff(L, a.addr) # "ok" THEN Res(s, Err(ChkOff(L, a.addr)))
+         ELSE LET n == Min(Min(L - a.addr, a.count), a.room) IN Res(s, OkD(n, Sub(s.mem, O + a.addr, n)))
+    [] op = "write_all_to_cursor" ->
+         IF ~IsSlice(c) THEN Res(s, Skip)
+         ELSE LET ch == Chk(L, a.addr, a.count) IN
+              IF ch # "ok" THEN Res(s, Err(ch))
+              ELSE IF a.count > a.room THEN Res(s, Err("IOError"))
+              ELSE Res(s, OkD(a.count, Sub(s.mem, O + a.addr, a.count)))
     [] op = "read_from_bad_fd" ->       \* descriptor read that fails: marks its whole target
          IF ~IsSlice(c) THEN Res(s, Skip)
          ELSE IF ChkOff(L, a.addr) # "ok" THEN Res(s, Err(ChkOff(L, a.addr)))
@@ -316,6 +328,8 @@ ReadExactVolatileFrom == \E x \in OffVals, k \in BufLens, n \in CntVals :
                        Step("read_exact_volatile_from", [addr |-> x, src |-> Tag(k), count |-> n])
 WriteVolatileTo == \E x \in OffVals, n \in CntVals : Step("write_volatile_to", [addr |-> x, count |-> n])
 WriteAllVolatileTo == \E x \in OffVals, n \in CntVals : Step("write_all_volatile_to", [addr |-> x, count |-> n])
+WriteToCursor == \E x \in OffVals, n \in CntVals, k \in {0, 2} : Step("write_to_cursor", [addr |-> x, count |-> n, room |-> k])
+WriteAllToCursor == \E x \in OffVals, n \in CntVals, k \in {0, 2} : Step("write_all_to_cursor", [addr |-> x, count |-> n, room |-> k])
 ReadFromBadFd == \E x \in OffVals, n \in CntVals : Step("read_from_bad_fd", [addr |-> x, count |-> n])
 RefStore   == st.cur.kind = "ref" /\ Step("ref_store", [buf |-> Tag(st.cur.len)])
 RefLoad    == Step("ref_load", [x |-> 0])
@@ -344,7 +358,7 @@ Derivations == \/ Subslice \/ GetSlice \/ Offset \/ SplitAt \/ GetRef \/ GetArra
 Queries     == \/ ComputeEndOffset \/ LenQ \/ PtrGuard \/ GetAtomicRef \/ AlignedAsRef
 DataOps     == \/ Write \/ Read \/ WriteSlice \/ ReadSlice \/ WriteObj \/ ReadObj \/ Store \/ Load
                \/ CopyTo \/ CopyFrom \/ CopyToVS \/ ReadVolatileFrom \/ ReadExactVolatileFrom
-               \/ WriteVolatileTo \/ WriteAllVolatileTo \/ ReadFromBadFd
+               \/ WriteVolatileTo \/ WriteAllVolatileTo \/ WriteToCursor \/ WriteAllToCursor \/ ReadFromBadFd
                \/ RefStore \/ RefLoad \/ ArrLoad \/ ArrStore \/ ArrCopyTo \/ ArrCopyFrom \/ ArrCopyToVS
                \/ BitmapReset
 
@@ -381,7 +395,7 @@ DirtyConfined ==
                 /\ \E i \in last'.a.to .. last'.a.to + last'.a.tc - 1 : i \div st.P = p) ]_vars
 ReadsMarkNothing ==
     [][ last'.op \in {"read", "read_slice", "read_obj", "load", "copy_to", "write_volatile_to",
-                      "write_all_volatile_to", "ref_load", "arr_load", "arr_copy_to", "ptr_guard", "len",
+                      "write_all_volatile_to", "write_to_cursor", "write_all_to_cursor", "ref_load", "arr_load", "arr_copy_to", "ptr_guard", "len",
                       "compute_end_offset", "get_atomic_ref", "aligned_as_ref", "subslice", "get_slice",
                       "offset", "split_at", "get_ref", "get_array_ref", "to_slice", "ref_at",
                       "array_from_slice", "as_volatile_slice", "root"}
